@@ -90,6 +90,17 @@ fn main() {
             let entries: Vec<(CardPair, f32)> = args[3].split(',').filter(|t| !t.is_empty()).map(|t| { let (p, w) = t.split_once(':').unwrap(); (p.parse().unwrap(), w.parse().unwrap()) }).collect();
             match search::check_c17(&entries, args[2].parse().unwrap()) { Ok(s) => println!("OK {}", s), Err(s) => { println!("MISMATCH {}", s); std::process::exit(1); } }
         }
+        Some("c06") => {
+            // replay c06 <combo:weight,...>
+            let entries: Vec<(CardPair, f32)> = args[2].split(',').filter(|t| !t.is_empty()).map(|t| { let (p, w) = t.split_once(':').unwrap(); (p.parse().unwrap(), w.parse().unwrap()) }).collect();
+            match search::check_c06(&entries) { Ok(s) => println!("OK {}", s), Err(s) => { println!("MISMATCH {}", s); std::process::exit(1); } }
+        }
+        Some("c06tok") => {
+            // replay c06tok <token text>
+            let r = args[2].parse::<espada::hand_range::HandRangeToken>().ok().map(|t| (t.to_string(), t.to_string().parse::<espada::hand_range::HandRangeToken>().ok() == Some(t)));
+            match r { Some((_, true)) => println!("OK"), other => { println!("MISMATCH token {:?}: {:?}", args[2], other); std::process::exit(1); } }
+        }
+        Some("c06-search") => { std::process::exit(search::c06_search(args[2].parse().unwrap(), args[3].parse().unwrap())); }
         Some("c17-search") => { std::process::exit(search::c17_search(args[2].parse().unwrap(), args[3].parse().unwrap())); }
         Some("iter") => {
             // replay iter <c02|c04|c08> <flop> <full|scopes> <ranges...>
